@@ -123,41 +123,66 @@ Definition call_meth (G : genv) (self : value) (cls m : string) (args : list val
 
 Definition cls_of (v : value) : string := class_name_of v.
 
+Definition is_ni (r : res value) : bool :=
+  match r with Ok (VBuiltin "NotImplemented") => true | _ => false end.
+
+(* call a special method; None when the class does not define it or it returns NotImplemented *)
+Definition try_meth (G : genv) (a : value) (m : string) (args : list value) : option (res value) :=
+  match find_method G (cls_of a) m with
+  | Some (c, _) => let r := call_meth G a c m args in if is_ni r then None else Some r
+  | None => None
+  end.
+
 (* arithmetic / bitwise / shift operators:  a.__op__(b), else (types differ) b.__rop__(a) *)
 Definition dispatch_arith (G : genv) (dunder rdunder : string) (a b : value) : res value :=
-  match find_method G (cls_of a) dunder with
-  | Some (c, _) => call_meth G a c dunder [b]
+  match try_meth G a dunder [b] with
+  | Some r => r
   | None =>
       if String.eqb (cls_of a) (cls_of b) then Err "TypeError"
-      else match find_method G (cls_of b) rdunder with
-           | Some (c, _) => call_meth G b c rdunder [a]
+      else match try_meth G b rdunder [a] with
+           | Some r => r
            | None => Err "TypeError"
            end
   end.
 
-(* ordering comparisons: a.__lt__(b), else the reflected b.__gt__(a) *)
+(* ordering comparisons: a.__lt__(b), else the reflected b.__gt__(a), else TypeError *)
 Definition dispatch_order (G : genv) (dunder refl : string) (a b : value) : res value :=
-  match find_method G (cls_of a) dunder with
-  | Some (c, _) => call_meth G a c dunder [b]
+  match try_meth G a dunder [b] with
+  | Some r => r
   | None =>
-      match find_method G (cls_of b) refl with
-      | Some (c, _) => call_meth G b c refl [a]
+      match try_meth G b refl [a] with
+      | Some r => r
       | None => Err "TypeError"
       end
   end.
 
-(* == and != : a user-defined method, the dataclass structural one, or object identity *)
-Definition dispatch_eq (G : genv) (dunder : string) (a b : value) : res value :=
+(* one side of == / != : a user-defined method, the dataclass structural one (a Python bool),
+   or nothing (object.__eq__ answers NotImplemented for a different object) *)
+Definition try_eq1 (G : genv) (dunder : string) (a b : value) : option (res value) :=
   match find_eq_in_mro G (mro_of G (cls_of a)) dunder with
-  | Some (Some (c, _)) => call_meth G a c dunder [b]
-  | Some None => Ok (VBool false)        (* dataclass __eq__: a plain Python bool *)
+  | Some (Some (c, _)) => let r := call_meth G a c dunder [b] in if is_ni r then None else Some r
+  | Some None => Some (Ok (VBool false))
+  | None => None
+  end.
+(* a class without its own __ne__ inherits object.__ne__, which negates the truth of __eq__:
+   the value handed on here is the __eq__ result whose truth is then taken *)
+Definition try_eq (G : genv) (dunder : string) (a b : value) : option (res value) :=
+  if String.eqb dunder "__ne__" then
+    match find_eq_in_mro G (mro_of G (cls_of a)) "__ne__" with
+    | Some _ => try_eq1 G "__ne__" a b
+    | None => try_eq1 G "__eq__" a b
+    end
+  else try_eq1 G dunder a b.
+
+(* == and != : a's method, then b's (reflected), then identity: a plain Python bool *)
+Definition dispatch_eq (G : genv) (dunder : string) (a b : value) : res value :=
+  match try_eq G dunder a b with
+  | Some r => r
   | None =>
-      if String.eqb dunder "__ne__" then
-        match find_eq_in_mro G (mro_of G (cls_of a)) "__eq__" with
-        | Some (Some (c, _)) => Ok (VBool false)   (* default __ne__ inverts __eq__ via truth *)
-        | _ => Ok (VBool true)
-        end
-      else Ok (VBool false)              (* identity comparison: a plain Python bool *)
+      match try_eq G dunder b a with
+      | Some r => r
+      | None => Ok (VBool (String.eqb dunder "__ne__"))
+      end
   end.
 
 Definition dispatch_method (G : genv) (m : string) (a : value) (args : list value) : res value :=
